@@ -11,3 +11,8 @@ import Calc.Props.C14Parse
 #print axioms Calc.C14_parse_pos_program
 #print axioms Calc.C14_parse_pos_program_expected
 #print axioms Calc.C14_stmtBoundary_iff
+#print axioms Calc.C14_parse_pos_exact
+#print axioms Calc.C14_parse_pos_exact_cases
+#print axioms Calc.C14_parse_pos_exact_all
+#print axioms Calc.C14_errLoc_iff
+#print axioms Calc.C14_parse_pos_exact_statement
